@@ -8,6 +8,22 @@ ALL = [f'C{i:02d}' for i in range(1, 21)]
 
 # property -> (level text, level note, technique, design section)
 CHECKS = {
+    'C05': (
+        'Lean 4 theorems over all circuits / op trees / indices / five strategies / cache states: Circuit.insert conserves the '
+        'multiset of operations (C05_insert_conserve) and keeps every moment on disjoint qubits (C05_insert_wf); every history '
+        'of public mutating calls (constructor, append, insert, insert_into_range, batch_*, clear, item assignment/deletion, *=) '
+        'keeps the circuit well-formed (C05_history_wf, induction over the history); earliest_available_moment is exactly the '
+        'documented backward scan (C05_earliest_available_spec); grouping into moment-compatible batches flattens to its input. '
+        'The model mirrors Circuit.insert & co. and is tied to cirq.Circuit by history-driven differential correspondence; the '
+        'ordering clauses of the property (existing / inserted / after-prefix / before-suffix with the stated EARLIEST exception) '
+        'and the cached summaries are evaluated on the implementation\'s own circuits after every call by a Lean specification '
+        'checker (not yet proved of the model for all inputs).',
+        'Trusted: Lean kernel; harness + driver (T2 sees generated histories only: ~1.2k quick / 56k thorough incl. all single-insert '
+        'histories over a 6-op alphabet); abstraction of operations to (id, qubits, measurement keys, control keys); order clauses '
+        'are checked per history, not proved.',
+        'Lean 4 proof (induction over op trees and call histories) + differential correspondence on edit histories',
+        'DESIGN.md §3 C05',
+    ),
     'C18': (
         'Lean 4 theorems for every width and mixed radix: digits<->int and bits<->int are mutual inverses, the binary fast '
         'path equals long division, out-of-range inputs are rejected exactly, bit packing round-trips for every length, '
